@@ -3,7 +3,7 @@ import muxlib, vlib
 
 PROP_FILES = ['Properties/C03']
 EXTRACT_FILES = ['Extract/Mux']
-PROFILES = ['close', 'close', 'close', 'mixed']
+PROFILES = ['close', 'close', 'close', 'mixed', 'sendfail']
 N_QUICK, N_THOROUGH = 300, 4000
 RULE = 'seeded lock-step scenarios with stream closes by either side (closing notice overtaking or trailing data on other connections, zero bytes before close, both sides closing, reads blocked across the close), 1..8 connections, singleplex; distinct = distinct concrete label sequences'
 ORACLE = muxlib.oracle_c03
